@@ -471,7 +471,7 @@ impl<'a> Searcher<'a> {
                         .map(|i| {
                             results
                                 .iter()
-                                .all(|row| row.get(*i).is_some_and(|cell| cell.1.parse::<i64>().is_ok()))
+                                .all(|row| row.get(*i).is_some_and(|cell| cell.1.parse::<f64>().is_ok_and(|number| !number.is_nan())))
                         })
                         .collect::<Vec<bool>>();
 
@@ -482,7 +482,12 @@ impl<'a> Searcher<'a> {
                             .map(|(idx, i)| {
                                 let (a, b) = (&a.get(*i).unwrap().1, &b.get(*i).unwrap().1);
                                 let ordering = if numeric_columns[idx] {
-                                    a.parse::<i64>().unwrap_or(0).cmp(&b.parse::<i64>().unwrap_or(0))
+                                    // fractional aggregates (AVG) are numbers too; huge integers stay exact
+                                    a.parse::<f64>().unwrap_or(0.0).total_cmp(&b.parse::<f64>().unwrap_or(0.0))
+                                        .then_with(|| match (a.parse::<i64>(), b.parse::<i64>()) {
+                                            (Ok(a), Ok(b)) => a.cmp(&b),
+                                            _ => std::cmp::Ordering::Equal,
+                                        })
                                 } else {
                                     a.cmp(b)
                                 };
